@@ -1,1 +1,852 @@
-fn main() {}
+//! C15 driver: WMO root / group write -> parse -> write, conversions, and an independent chunk
+//! walker over the produced bytes.  Records observations only; Trace_WmoLayout.tla decides.
+//!
+//! Cases come from Gen_WmoLayout (TLC).  The first case (`kind = "layout"`) carries the numbers
+//! of the *specification* (record sizes, MOHD field offsets, container header sizes, offsets of the
+//! string references inside records); the walker uses only those and the generic framing rule.
+use std::collections::{BTreeMap, HashMap};
+use std::io::Cursor;
+use wow_wmo::{
+    parse_wmo, BoundingBox, Color, ParsedWmo, TexCoord, Vec3, WmoBatch, WmoBspNode, WmoConverter,
+    WmoDoodadDef, WmoDoodadSet, WmoFlags, WmoGroup, WmoGroupFlags, WmoGroupHeader, WmoGroupInfo,
+    WmoGroupParser, WmoHeader, WmoLight, WmoLightProperties, WmoLightType, WmoLiquid,
+    WmoLiquidVertex, WmoMaterial, WmoMaterialFlags, WmoParser, WmoPlane, WmoPortal,
+    WmoPortalReference, WmoRoot, WmoVersion, WmoWriter,
+};
+use wverif_common::*;
+
+// ------------------------------------------------------------------------------------------
+// layout numbers emitted by the specification
+// ------------------------------------------------------------------------------------------
+struct Layout {
+    mohd_fields: Vec<String>,
+    mohd_offs: Vec<usize>,
+    containers: HashMap<String, usize>,
+    elem: HashMap<String, usize>,
+    momt_tex1: usize,
+    momt_tex2: usize,
+    mogi_name: usize,
+    modd_name: usize,
+}
+
+fn layout_from(c: &Value) -> Layout {
+    let mut containers = HashMap::new();
+    for (k, v) in c["containers"].as_object().unwrap_or_else(|| tool_error("layout.containers")) {
+        containers.insert(k.clone(), v.as_u64().unwrap() as usize);
+    }
+    let mut elem = HashMap::new();
+    for (k, v) in c["elem"].as_object().unwrap_or_else(|| tool_error("layout.elem")) {
+        elem.insert(k.clone(), v.as_u64().unwrap() as usize);
+    }
+    Layout {
+        mohd_fields: ga(c, "mohd_fields").iter().map(|x| x.as_str().unwrap().to_string()).collect(),
+        mohd_offs: ga(c, "mohd_offs").iter().map(|x| x.as_u64().unwrap() as usize).collect(),
+        containers,
+        elem,
+        momt_tex1: gi(c, "momt_tex1") as usize,
+        momt_tex2: gi(c, "momt_tex2") as usize,
+        mogi_name: gi(c, "mogi_name") as usize,
+        modd_name: gi(c, "modd_name") as usize,
+    }
+}
+
+// ------------------------------------------------------------------------------------------
+// value generator: distinct element values everywhere
+// ------------------------------------------------------------------------------------------
+struct Gen {
+    rng: Rng,
+    ctr: u32,
+    xf: bool,
+}
+const EXTREMES: [f32; 10] = [
+    f32::MAX,
+    f32::MIN,
+    f32::MIN_POSITIVE,
+    -0.0,
+    1.0e-40,
+    f32::INFINITY,
+    f32::NEG_INFINITY,
+    -1.0e-38,
+    16777217.0,
+    f32::EPSILON,
+];
+impl Gen {
+    fn f(&mut self) -> f32 {
+        self.ctr += 1;
+        if self.xf && self.ctr % 4 == 0 {
+            return EXTREMES[(self.rng.below(EXTREMES.len() as u64)) as usize];
+        }
+        let sign = if self.rng.chance(1, 3) { -1.0 } else { 1.0 };
+        sign * (self.ctr as f32 + self.rng.f32() * 0.5)
+    }
+    fn v3(&mut self) -> Vec3 {
+        Vec3 { x: self.f(), y: self.f(), z: self.f() }
+    }
+    fn bbox(&mut self) -> BoundingBox {
+        BoundingBox { min: self.v3(), max: self.v3() }
+    }
+    fn color(&mut self) -> Color {
+        self.ctr += 1;
+        Color { r: self.rng.byte(), g: (self.ctr & 0xFF) as u8, b: self.rng.byte(), a: self.rng.byte() }
+    }
+    fn u16(&mut self) -> u16 {
+        self.ctr += 1;
+        // distinct, never 0xFFFF (list terminator of MOVB)
+        (self.ctr.wrapping_mul(7) % 0xFF00) as u16
+    }
+    fn u32(&mut self) -> u32 {
+        self.ctr += 1;
+        self.ctr.wrapping_mul(2654435761) >> 4
+    }
+    fn small(&mut self, n: u64) -> u32 {
+        self.rng.below(n) as u32
+    }
+}
+
+fn names(class: &str, what: &str, n: usize, g: &mut Gen) -> Vec<String> {
+    (0..n)
+        .map(|i| match class {
+            "prefix" => {
+                // strict prefixes of one another and shared suffixes
+                let base = format!("Dungeons\\Textures\\{what}\\wall");
+                match i % 3 {
+                    0 => base,
+                    1 => format!("{base}01"),
+                    _ => format!("{base}01b_{}", i),
+                }
+            }
+            "long" => {
+                let mut s = format!("World\\wmo\\{what}\\{i}_");
+                while s.len() < 240 + 17 * i {
+                    s.push_str("very_long_directory_name\\");
+                }
+                s.push_str(".blp");
+                s
+            }
+            "nonascii" => format!("Textures\\Gr\u{f6}\u{df}e_{what}_{i}_\u{e9}.blp"),
+            _ => format!("World\\wmo\\{what}\\item_{i}_{:x}.blp", g.rng.below(0xFFFF)),
+        })
+        .collect()
+}
+
+fn version_of(v: i64) -> WmoVersion {
+    match v {
+        1 => WmoVersion::Classic,
+        2 => WmoVersion::Tbc,
+        3 => WmoVersion::Wotlk,
+        4 => WmoVersion::Cataclysm,
+        5 => WmoVersion::Mop,
+        _ => tool_error("version index out of range"),
+    }
+}
+
+fn str_offsets(strs: &[String]) -> Vec<u32> {
+    let mut o = 0u32;
+    strs.iter()
+        .map(|s| {
+            let r = o;
+            o += s.len() as u32 + 1;
+            r
+        })
+        .collect()
+}
+
+// ------------------------------------------------------------------------------------------
+// object construction from a shape
+// ------------------------------------------------------------------------------------------
+fn build_root(c: &Value, g: &mut Gen) -> WmoRoot {
+    let ver = version_of(gi(c, "ver"));
+    let class = gs(c, "names");
+    let n = |k: &str| gi(c, k) as usize;
+    let textures = names(class, "tex", n("ntex"), g);
+    let toffs = str_offsets(&textures);
+    let mut texture_offset_index_map = HashMap::new();
+    for (i, o) in toffs.iter().enumerate() {
+        texture_offset_index_map.insert(*o, i as u32);
+    }
+    let mat_flag_bits: u32 = 0xFFF;
+    let materials: Vec<WmoMaterial> = (0..n("nmat"))
+        .map(|i| WmoMaterial {
+            flags: WmoMaterialFlags::from_bits_truncate((g.u32() & mat_flag_bits) | 0x100),
+            shader: 1 + g.small(16) + 16 * i as u32,
+            blend_mode: g.small(8) + 8 * (i as u32 + 1),
+            texture1: if toffs.is_empty() { 1000 + g.u32() % 1000 } else { toffs[i % toffs.len()] },
+            emissive_color: g.color(),
+            sidn_color: g.color(),
+            framebuffer_blend: g.color(),
+            texture2: if toffs.is_empty() { 3000 + g.u32() % 1000 } else { toffs[(i + 1) % toffs.len()] },
+            diffuse_color: g.color(),
+            ground_type: g.u32(),
+        })
+        .collect();
+    let gnames = names(class, "grp", n("ngrp"), g);
+    let groups: Vec<WmoGroupInfo> = gnames
+        .into_iter()
+        .map(|name| WmoGroupInfo {
+            flags: WmoGroupFlags::from_bits_truncate(g.u32() & 0x3FFFF),
+            bounding_box: g.bbox(),
+            name,
+        })
+        .collect();
+    let npv = n("npv");
+    let portals: Vec<WmoPortal> = (0..n("nport"))
+        .map(|_| WmoPortal { vertices: (0..npv).map(|_| g.v3()).collect(), normal: g.v3() })
+        .collect();
+    let portal_references: Vec<WmoPortalReference> = (0..n("npref"))
+        .map(|_| WmoPortalReference { portal_index: g.u16(), group_index: g.u16(), side: g.u16() & 1 })
+        .collect();
+    let vbl = n("vbl");
+    let visible_block_lists: Vec<Vec<u16>> =
+        (0..n("nvbl")).map(|_| (0..vbl).map(|_| g.u16()).collect()).collect();
+    let lights: Vec<WmoLight> = (0..n("nlight"))
+        .map(|i| {
+            let light_type = match i % 4 {
+                0 => WmoLightType::Omni,
+                1 => WmoLightType::Spot,
+                2 => WmoLightType::Directional,
+                _ => WmoLightType::Ambient,
+            };
+            let properties = match light_type {
+                WmoLightType::Omni => WmoLightProperties::Omni,
+                WmoLightType::Ambient => WmoLightProperties::Ambient,
+                WmoLightType::Spot => WmoLightProperties::Spot { direction: g.v3(), hotspot: g.f(), falloff: g.f() },
+                WmoLightType::Directional => WmoLightProperties::Directional { direction: g.v3() },
+            };
+            WmoLight {
+                light_type,
+                position: g.v3(),
+                color: g.color(),
+                intensity: g.f(),
+                rotation: [g.f(), g.f(), g.f(), g.f()],
+                attenuation_start: g.f(),
+                attenuation_end: g.f(),
+                use_attenuation: i % 2 == 0,
+                properties,
+            }
+        })
+        .collect();
+    // doodad names are not part of the legacy object model; name offsets are what a parsed file
+    // would carry: offsets of distinct names in a MODN table
+    let dnames = names(class, "dd", n("ndd"), g);
+    let doffs = str_offsets(&dnames);
+    let doodad_defs: Vec<WmoDoodadDef> = (0..n("ndd"))
+        .map(|i| WmoDoodadDef {
+            name_offset: doffs[i],
+            position: g.v3(),
+            orientation: [g.f(), g.f(), g.f(), g.f()],
+            scale: g.f(),
+            color: g.color(),
+            set_index: (i as u16) + 1,
+        })
+        .collect();
+    let nds = n("nds");
+    let doodad_sets: Vec<WmoDoodadSet> = (0..nds)
+        .map(|i| WmoDoodadSet {
+            name: format!("Set_{}_{:x}", i, g.rng.below(0xFFFF)),
+            start_doodad: g.u32() % 1000,
+            n_doodads: g.u32() % 100,
+        })
+        .collect();
+    let skybox = if gi(c, "sky") == 1 {
+        Some(names(class, "sky", 1, g).remove(0).replace(".blp", ".m2"))
+    } else {
+        None
+    };
+    let bounding_box = union_box(&groups);
+    let header = WmoHeader {
+        n_materials: materials.len() as u32,
+        n_groups: groups.len() as u32,
+        n_portals: portals.len() as u32,
+        n_lights: lights.len() as u32,
+        n_doodad_names: doodad_defs.len() as u32,
+        n_doodad_defs: doodad_defs.len() as u32,
+        n_doodad_sets: doodad_sets.len() as u32,
+        flags: WmoFlags::from_bits_truncate(g.u32() & 0x3DF), // every defined bit except HAS_SKYBOX (derived)
+        ambient_color: g.color(),
+    };
+    WmoRoot {
+        version: ver,
+        materials,
+        groups,
+        portals,
+        portal_references,
+        visible_block_lists,
+        lights,
+        doodad_defs,
+        doodad_sets,
+        bounding_box,
+        textures,
+        texture_offset_index_map,
+        header,
+        skybox,
+        convex_volume_planes: None,
+    }
+}
+
+/// Union of the group boxes, computed exactly like a reader has to (fold of min / max).
+fn union_box(groups: &[WmoGroupInfo]) -> BoundingBox {
+    if groups.is_empty() {
+        let z = Vec3 { x: 0.0, y: 0.0, z: 0.0 };
+        return BoundingBox { min: z, max: z };
+    }
+    let (mut a, mut b, mut c) = (f32::MAX, f32::MAX, f32::MAX);
+    let (mut d, mut e, mut f) = (f32::MIN, f32::MIN, f32::MIN);
+    for gr in groups {
+        a = a.min(gr.bounding_box.min.x);
+        b = b.min(gr.bounding_box.min.y);
+        c = c.min(gr.bounding_box.min.z);
+        d = d.max(gr.bounding_box.max.x);
+        e = e.max(gr.bounding_box.max.y);
+        f = f.max(gr.bounding_box.max.z);
+    }
+    BoundingBox { min: Vec3 { x: a, y: b, z: c }, max: Vec3 { x: d, y: e, z: f } }
+}
+
+fn build_group(c: &Value, g: &mut Gen) -> WmoGroup {
+    let n = |k: &str| gi(c, k);
+    let cnt = |k: &str| n(k).max(0) as usize;
+    let opt = |k: &str| n(k) >= 0;
+    let vertices: Vec<Vec3> = (0..cnt("nvert")).map(|_| g.v3()).collect();
+    let indices: Vec<u16> = (0..cnt("nidx")).map(|_| g.u16()).collect();
+    let normals: Vec<Vec3> = (0..cnt("nnorm")).map(|_| g.v3()).collect();
+    let tex_coords: Vec<TexCoord> = (0..cnt("ntc")).map(|_| TexCoord { u: g.f(), v: g.f() }).collect();
+    let vertex_colors = if opt("ncol") { Some((0..cnt("ncol")).map(|_| g.color()).collect()) } else { None };
+    let batches: Vec<WmoBatch> = (0..cnt("nbatch"))
+        .map(|i| {
+            let mut flags = [0u8; 10];
+            g.rng.fill(&mut flags);
+            WmoBatch {
+                flags,
+                material_id: (i as u16) + 1 + (g.small(3) as u16) * 16,
+                start_index: g.u32() % 60000,
+                count: g.u16(),
+                start_vertex: g.u16(),
+                end_vertex: g.u16(),
+                use_large_material_id: i % 2 == 1,
+            }
+        })
+        .collect();
+    let bsp_nodes = if opt("nbsp") {
+        Some(
+            (0..cnt("nbsp"))
+                .map(|i| {
+                    let normal = match i % 4 {
+                        0 => Vec3 { x: 1.0, y: 0.0, z: 0.0 },
+                        1 => Vec3 { x: 0.0, y: 1.0, z: 0.0 },
+                        2 => Vec3 { x: 0.0, y: 0.0, z: 1.0 },
+                        _ => Vec3 { x: 0.5, y: 0.5, z: 0.70710677 },
+                    };
+                    WmoBspNode {
+                        plane: WmoPlane { normal, distance: g.f() },
+                        children: [g.u16() as i16, -(g.u16() as i16 / 2)],
+                        first_face: g.u16(),
+                        num_faces: g.u16(),
+                    }
+                })
+                .collect(),
+        )
+    } else {
+        None
+    };
+    let liq = n("liq");
+    let liquid = if liq > 0 {
+        let (w, h) = (n("lw") as u32, n("lh") as u32);
+        Some(WmoLiquid {
+            liquid_type: g.u32() % 20,
+            flags: g.u32() & 0xFD, // bit 1 is the converter's "V2" marker
+            width: w,
+            height: h,
+            vertices: (0..(w * h)).map(|_| WmoLiquidVertex { position: g.v3(), height: g.f() }).collect(),
+            tile_flags: if liq == 2 { Some((0..((w - 1) * (h - 1))).map(|_| g.rng.byte()).collect()) } else { None },
+        })
+    } else {
+        None
+    };
+    let doodad_refs = if opt("ndref") { Some((0..cnt("ndref")).map(|_| g.u16()).collect()) } else { None };
+    WmoGroup {
+        header: WmoGroupHeader {
+            flags: WmoGroupFlags::from_bits_truncate(g.u32() | 0x3C000), // the version-gated bits are always set
+            bounding_box: g.bbox(),
+            name_offset: g.u32() % 4096,
+            group_index: g.u32() % 512,
+        },
+        materials: (0..cnt("nbatch")).map(|_| g.u16()).collect(),
+        vertices,
+        normals,
+        tex_coords,
+        batches,
+        indices,
+        vertex_colors,
+        bsp_nodes,
+        liquid,
+        doodad_refs,
+    }
+}
+
+// ------------------------------------------------------------------------------------------
+// content tokens (per section)
+// ------------------------------------------------------------------------------------------
+type Toks = BTreeMap<&'static str, String>;
+
+fn resolve_tex(r: &WmoRoot, off: u32) -> String {
+    match r.texture_offset_index_map.get(&off) {
+        Some(i) => r.textures.get(*i as usize).cloned().unwrap_or_else(|| "?index".into()),
+        None => "?offset".into(),
+    }
+}
+
+fn root_tokens(r: &WmoRoot) -> Toks {
+    let mut t = Toks::new();
+    let hflags = r.header.flags & !WmoFlags::HAS_SKYBOX; // derived from `skybox` by the writer
+    t.insert("header", dtok(&(hflags, r.header.ambient_color)));
+    t.insert("bounds", dtok(&r.bounding_box));
+    t.insert("textures", dtok(&r.textures));
+    let res: Vec<(String, String)> =
+        r.materials.iter().map(|m| (resolve_tex(r, m.texture1), resolve_tex(r, m.texture2))).collect();
+    t.insert("tex_resolve", dtok(&res));
+    let mat = |m: &WmoMaterial, mask: u32| {
+        (
+            m.flags.bits() & mask,
+            m.shader,
+            m.blend_mode,
+            m.texture1,
+            m.emissive_color,
+            m.sidn_color,
+            m.texture2,
+            m.diffuse_color,
+            m.ground_type,
+        )
+    };
+    t.insert("materials", dtok(&r.materials.iter().map(|m| mat(m, !0)).collect::<Vec<_>>()));
+    t.insert("materials_noshadow", dtok(&r.materials.iter().map(|m| mat(m, !0x300)).collect::<Vec<_>>()));
+    t.insert("materials_fbblend", dtok(&r.materials.iter().map(|m| m.framebuffer_blend).collect::<Vec<_>>()));
+    t.insert("group_geom", dtok(&r.groups.iter().map(|g| (g.flags, g.bounding_box)).collect::<Vec<_>>()));
+    t.insert("group_names", dtok(&r.groups.iter().map(|g| g.name.clone()).collect::<Vec<_>>()));
+    t.insert("portals", dtok(&r.portals));
+    t.insert("portal_refs", dtok(&r.portal_references));
+    t.insert("visible_lists", dtok(&r.visible_block_lists));
+    t.insert(
+        "lights",
+        dtok(
+            &r.lights
+                .iter()
+                .map(|l| {
+                    (
+                        l.light_type,
+                        l.position,
+                        l.color,
+                        l.intensity,
+                        l.rotation,
+                        l.attenuation_start,
+                        l.attenuation_end,
+                        l.use_attenuation,
+                    )
+                })
+                .collect::<Vec<_>>(),
+        ),
+    );
+    t.insert("light_props", dtok(&r.lights.iter().map(|l| l.properties.clone()).collect::<Vec<_>>()));
+    t.insert(
+        "doodad_geom",
+        dtok(&r.doodad_defs.iter().map(|d| (d.position, d.orientation, d.scale, d.color)).collect::<Vec<_>>()),
+    );
+    t.insert("doodad_name_offsets", dtok(&r.doodad_defs.iter().map(|d| d.name_offset).collect::<Vec<_>>()));
+    t.insert("doodad_set_index", dtok(&r.doodad_defs.iter().map(|d| d.set_index).collect::<Vec<_>>()));
+    t.insert("doodad_sets", dtok(&r.doodad_sets));
+    t.insert("skybox", dtok(&r.skybox));
+    t
+}
+
+fn v3bits(v: &Vec3) -> [u32; 3] {
+    [v.x.to_bits(), v.y.to_bits(), v.z.to_bits()]
+}
+
+fn group_tokens(g: &WmoGroup) -> Toks {
+    let mut t = Toks::new();
+    t.insert("ghdr", dtok(&g.header));
+    let mut hb = g.header.clone();
+    hb.flags &= !(WmoGroupFlags::HAS_MORE_MOTION_TYPES
+        | WmoGroupFlags::USE_SCENE_GRAPH
+        | WmoGroupFlags::EXTERIOR_BSP
+        | WmoGroupFlags::MOUNT_ALLOWED);
+    t.insert("ghdr_base", dtok(&hb));
+    t.insert("gmaterials", dtok(&g.materials));
+    t.insert("vertices", dtok(&g.vertices));
+    t.insert("indices", dtok(&g.indices));
+    t.insert("normals", dtok(&g.normals));
+    t.insert("tex_coords", dtok(&g.tex_coords));
+    t.insert("vertex_colors", dtok(&g.vertex_colors));
+    t.insert("batches", dtok(&g.batches));
+    t.insert("bsp_nodes", dtok(&g.bsp_nodes));
+    t.insert("liquid", dtok(&g.liquid));
+    t.insert("doodad_refs", dtok(&g.doodad_refs));
+    t
+}
+
+/// Projection of a legacy group onto what the binrw object model (parse_wmo) can express.
+fn group_api_tokens_in(g: &WmoGroup) -> Toks {
+    let mut t = Toks::new();
+    t.insert("vertices", dtok(&g.vertices.iter().map(v3bits).collect::<Vec<_>>()));
+    t.insert("indices", dtok(&g.indices));
+    t.insert("normals", dtok(&g.normals.iter().map(v3bits).collect::<Vec<_>>()));
+    t.insert("tex_coords", dtok(&g.tex_coords.iter().map(|c| [c.u.to_bits(), c.v.to_bits()]).collect::<Vec<_>>()));
+    let cols: Vec<[u8; 4]> =
+        g.vertex_colors.clone().unwrap_or_default().iter().map(|c| [c.b, c.g, c.r, c.a]).collect();
+    t.insert("vertex_colors", dtok(&cols));
+    t.insert("doodad_refs", dtok(&g.doodad_refs.clone().unwrap_or_default()));
+    t
+}
+fn group_api_tokens_out(g: &wow_wmo::group_parser::WmoGroup) -> Toks {
+    let mut t = Toks::new();
+    t.insert("vertices", dtok(&g.vertex_positions.iter().map(|v| [v.x.to_bits(), v.y.to_bits(), v.z.to_bits()]).collect::<Vec<_>>()));
+    t.insert("indices", dtok(&g.vertex_indices));
+    t.insert("normals", dtok(&g.vertex_normals.iter().map(|v| [v.x.to_bits(), v.y.to_bits(), v.z.to_bits()]).collect::<Vec<_>>()));
+    t.insert("tex_coords", dtok(&g.texture_coords.iter().map(|c| [c.u.to_bits(), c.v.to_bits()]).collect::<Vec<_>>()));
+    t.insert("vertex_colors", dtok(&g.vertex_colors.iter().map(|c| [c.b, c.g, c.r, c.a]).collect::<Vec<_>>()));
+    t.insert("doodad_refs", dtok(&g.doodad_refs));
+    t
+}
+fn root_api_tokens_in(r: &WmoRoot) -> Toks {
+    let mut t = Toks::new();
+    t.insert("textures", dtok(&r.textures));
+    t.insert("group_names", dtok(&r.groups.iter().map(|g| g.name.clone()).collect::<Vec<_>>()));
+    let n = r.doodad_defs.len() as u32;
+    t.insert(
+        "counts",
+        dtok(&[
+            r.materials.len() as u32,
+            r.groups.len() as u32,
+            r.portals.len() as u32,
+            r.lights.len() as u32,
+            n,
+            n,
+            r.doodad_sets.len() as u32,
+        ]),
+    );
+    t
+}
+fn root_api_tokens_out(r: &wow_wmo::root_parser::WmoRoot) -> Toks {
+    let mut t = Toks::new();
+    t.insert("textures", dtok(&r.textures));
+    t.insert("group_names", dtok(&r.group_names));
+    t.insert(
+        "counts",
+        dtok(&[r.n_materials, r.n_groups, r.n_portals, r.n_lights, r.n_doodad_names, r.n_doodad_defs, r.n_doodad_sets]),
+    );
+    t
+}
+
+// ------------------------------------------------------------------------------------------
+// the independent chunk walker (generic framing rule + container header sizes from the spec)
+// ------------------------------------------------------------------------------------------
+#[derive(Clone)]
+struct Ck {
+    tag: String,
+    off: usize,
+    size: usize,
+    depth: u32,
+}
+
+fn tag_of(b: &[u8]) -> (String, bool) {
+    let t = [b[3], b[2], b[1], b[0]];
+    if t.iter().all(|c| c.is_ascii_uppercase() || c.is_ascii_digit()) {
+        (String::from_utf8_lossy(&t).to_string(), true)
+    } else {
+        (format!("x{:02x}{:02x}{:02x}{:02x}", t[0], t[1], t[2], t[3]), false)
+    }
+}
+
+/// Walk `bytes[start..end)`; returns false when the range is not tiled by well-formed chunks.
+/// `brk` receives the tag of the last well-placed chunk before the first anomaly.
+fn walk(bytes: &[u8], start: usize, end: usize, depth: u32, lay: &Layout, out: &mut Vec<Ck>, brk: &mut Option<String>) {
+    let mut off = start;
+    let mut last = String::new();
+    while off < end && out.len() < 96 {
+        if off + 8 > end {
+            brk.get_or_insert(last.clone());
+            return;
+        }
+        let (tag, known) = tag_of(&bytes[off..off + 4]);
+        let size = u32::from_le_bytes([bytes[off + 4], bytes[off + 5], bytes[off + 6], bytes[off + 7]]) as usize;
+        out.push(Ck { tag: tag.clone(), off, size: size.min(0x7FFF_FFFF), depth });
+        if !known || off + 8 + size > end {
+            brk.get_or_insert(last.clone());
+            if off + 8 + size > end {
+                return;
+            }
+        }
+        if let Some(h) = lay.containers.get(&tag) {
+            if *h <= size && off + 8 + size <= end {
+                walk(bytes, off + 8 + h, off + 8 + size, depth + 1, lay, out, brk);
+            } else {
+                brk.get_or_insert(tag.clone());
+            }
+        }
+        last = tag;
+        off += 8 + size;
+    }
+}
+
+fn find<'a>(cs: &'a [Ck], tag: &str) -> Option<&'a Ck> {
+    cs.iter().find(|c| c.tag == tag)
+}
+fn payload<'a>(bytes: &'a [u8], c: &Ck) -> &'a [u8] {
+    let a = (c.off + 8).min(bytes.len());
+    let b = (c.off + 8 + c.size).min(bytes.len());
+    &bytes[a..b]
+}
+fn rd32(b: &[u8], o: usize) -> Option<u32> {
+    if o + 4 <= b.len() {
+        Some(u32::from_le_bytes([b[o], b[o + 1], b[o + 2], b[o + 3]]))
+    } else {
+        None
+    }
+}
+/// NUL-terminated strings of a table: (offset, length, token of the bytes)
+fn strtab(b: &[u8]) -> Vec<Value> {
+    let mut v = Vec::new();
+    let mut s = 0usize;
+    for i in 0..b.len() {
+        if b[i] == 0 {
+            if i > s {
+                v.push(json!({"off": s, "len": i - s, "tok": tok(&b[s..i])}));
+            }
+            s = i + 1;
+        }
+    }
+    if s < b.len() {
+        v.push(json!({"off": s, "len": b.len() - s, "tok": "unterminated"}));
+    }
+    v
+}
+/// the u32 at `field` of every `elem`-sized record of the chunk
+fn refs_of(bytes: &[u8], c: Option<&Ck>, elem: usize, field: usize, mask: u32) -> Vec<i64> {
+    match c {
+        None => vec![],
+        Some(c) => {
+            let p = payload(bytes, c);
+            (0..p.len() / elem.max(1)).map(|i| rd32(p, i * elem + field).map(|v| (v & mask) as i64).unwrap_or(-1)).collect()
+        }
+    }
+}
+
+fn layout_events(case: &str, bytes: &[u8], lay: &Layout, lens: &BTreeMap<&str, usize>, want: &Wants, evs: &mut Vec<Value>) -> String {
+    let mut cs = Vec::new();
+    let mut brk = None;
+    walk(bytes, 0, bytes.len(), 1, lay, &mut cs, &mut brk);
+    let brk = brk.unwrap_or_default();
+    evs.push(json!({"ev":"Chunks","case":case,"len":bytes.len(),"brk":brk,
+        "cs": cs.iter().map(|c| json!({"tag":c.tag,"off":c.off,"size":c.size,"depth":c.depth})).collect::<Vec<_>>()}));
+    if !lens.is_empty() {
+        // MOHD counts against list lengths and record counts
+        let mohd = find(&cs, "MOHD");
+        for (j, f) in lay.mohd_fields.iter().enumerate() {
+            let val = mohd.and_then(|m| rd32(payload(bytes, m), lay.mohd_offs[j])).map(|v| v.min(0x7FFF_FFFF) as i64).unwrap_or(-1);
+            let chunk = want.count_chunk.get(f.as_str()).cloned().unwrap_or_default();
+            let ck = find(&cs, &chunk);
+            let nstr = if chunk == "MODN" { ck.map(|c| strtab(payload(bytes, c)).len() as i64).unwrap_or(0) } else { -1 };
+            evs.push(json!({"ev":"Count","case":case,"field":f,"mohd":val,"list":lens.get(f.as_str()).copied().unwrap_or(0),
+                "chunk":chunk,"present":ck.is_some(),"size":ck.map(|c| c.size).unwrap_or(0),"nstr":nstr}));
+        }
+        // string tables and the offsets that point into them
+        let e = |t: &str| lay.elem.get(t).copied().unwrap_or(1);
+        let tabs: [(&str, &str, Vec<i64>, &Vec<String>); 4] = [
+            ("MOTX", "tex1", refs_of(bytes, find(&cs, "MOMT"), e("MOMT"), lay.momt_tex1, !0), &want.tex1),
+            ("MOTX", "tex2", refs_of(bytes, find(&cs, "MOMT"), e("MOMT"), lay.momt_tex2, !0), &want.tex2),
+            ("MOGN", "gname", refs_of(bytes, find(&cs, "MOGI"), e("MOGI"), lay.mogi_name, !0), &want.gname),
+            ("MODN", "dname", refs_of(bytes, find(&cs, "MODD"), e("MODD"), lay.modd_name, 0x00FF_FFFF), &want.dname),
+        ];
+        for (table, what, refs, wants) in tabs.iter() {
+            let strs = find(&cs, table).map(|c| strtab(payload(bytes, c))).unwrap_or_default();
+            evs.push(json!({"ev":"StrRef","case":case,"table":table,"what":what,"strs":strs,"refs":refs,"want":wants}));
+        }
+    }
+    brk
+}
+
+#[derive(Default)]
+struct Wants {
+    count_chunk: HashMap<&'static str, String>,
+    tex1: Vec<String>,
+    tex2: Vec<String>,
+    gname: Vec<String>,
+    dname: Vec<String>,
+}
+
+fn sec_events(case: &str, phase: &str, a: &Toks, b: &Toks, evs: &mut Vec<Value>) {
+    for (k, va) in a {
+        let vb = b.get(k).cloned().unwrap_or_else(|| "-".into());
+        evs.push(json!({"ev":"Sec","case":case,"phase":phase,"name":k,"a":va,"b":vb}));
+    }
+}
+
+fn outcome<T, E: std::fmt::Debug>(o: Outcome<Result<T, E>>) -> (String, Option<T>) {
+    match o {
+        Outcome::Done(Ok(v)) => ("ok".into(), Some(v)),
+        Outcome::Done(Err(e)) => (format!("err:{}", variant_name(&e)), None),
+        Outcome::Panic(m) => (format!("panic:{m}"), None),
+        Outcome::Hang => ("hang".into(), None),
+    }
+}
+
+fn write_root(r: &WmoRoot, v: WmoVersion) -> (String, Vec<u8>) {
+    let mut cur = Cursor::new(Vec::new());
+    let (res, _) = outcome(guarded(|| WmoWriter::new().write_root(&mut cur, r, v)));
+    (res, cur.into_inner())
+}
+fn write_group(g: &WmoGroup, v: WmoVersion) -> (String, Vec<u8>) {
+    let mut cur = Cursor::new(Vec::new());
+    let (res, _) = outcome(guarded(|| WmoWriter::new().write_group(&mut cur, g, v)));
+    (res, cur.into_inner())
+}
+
+fn shape_attrs(c: &Value) -> Value {
+    let mut m = c.as_object().cloned().unwrap_or_default();
+    m.remove("id");
+    Value::Object(m)
+}
+
+// ------------------------------------------------------------------------------------------
+// case drivers
+// ------------------------------------------------------------------------------------------
+fn run_root(case: &str, c: &Value, lay: &Layout, seed: u64) -> Vec<Value> {
+    let mut g = Gen { rng: Rng::derive(seed, case), ctr: 0, xf: gi(c, "xf") == 1 };
+    let ver = gi(c, "ver");
+    let v = version_of(ver);
+    let root = build_root(c, &mut g);
+    let tin = root_tokens(&root);
+    let mut evs = Vec::new();
+    let (wres, bytes) = write_root(&root, v);
+    let mut lens: BTreeMap<&str, usize> = BTreeMap::new();
+    lens.insert("n_materials", root.materials.len());
+    lens.insert("n_groups", root.groups.len());
+    lens.insert("n_portals", root.portals.len());
+    lens.insert("n_lights", root.lights.len());
+    lens.insert("n_doodad_names", root.doodad_defs.len());
+    lens.insert("n_doodad_defs", root.doodad_defs.len());
+    lens.insert("n_doodad_sets", root.doodad_sets.len());
+    let mut want = Wants::default();
+    for (f, t) in [("n_materials", "MOMT"), ("n_groups", "MOGI"), ("n_portals", "MOPT"), ("n_lights", "MOLT"),
+                   ("n_doodad_names", "MODN"), ("n_doodad_defs", "MODD"), ("n_doodad_sets", "MODS")] {
+        want.count_chunk.insert(f, t.to_string());
+    }
+    want.tex1 = root.materials.iter().map(|m| tok(resolve_tex(&root, m.texture1).as_bytes())).collect();
+    want.tex2 = root.materials.iter().map(|m| tok(resolve_tex(&root, m.texture2).as_bytes())).collect();
+    want.gname = root.groups.iter().map(|x| tok(x.name.as_bytes())).collect();
+    want.dname = root.doodad_defs.iter().map(|_| "-".to_string()).collect();
+    let mut body = Vec::new();
+    body.push(json!({"ev":"Write","case":case,"kind":"root","res":wres,"len":bytes.len(),"tok":tok(&bytes)}));
+    let mut brk = String::new();
+    if wres == "ok" {
+        brk = layout_events(case, &bytes, lay, &lens, &want, &mut body);
+        // legacy parser (the one the writer mirrors)
+        let (pres, parsed) = outcome(guarded(|| WmoParser::new().parse_root(&mut Cursor::new(&bytes))));
+        body.push(json!({"ev":"Parse","case":case,"api":"legacy","res":pres}));
+        if let Some(p) = &parsed {
+            sec_events(case, "parse", &tin, &root_tokens(p), &mut body);
+            let (rres, b2) = write_root(p, v);
+            body.push(json!({"ev":"Rewrite","case":case,"res":rres,"len":b2.len(),"tok":tok(&b2)}));
+        }
+        // second public parser
+        let (ares, aparsed) = outcome(guarded(|| parse_wmo(&mut Cursor::new(&bytes))));
+        let ares = match (&ares[..], &aparsed) {
+            ("ok", Some(ParsedWmo::Group(_))) => "err:DetectedAsGroup".to_string(),
+            _ => ares,
+        };
+        body.push(json!({"ev":"Parse","case":case,"api":"binrw","res":ares}));
+        if let Some(ParsedWmo::Root(r)) = &aparsed {
+            sec_events(case, "api", &root_api_tokens_in(&root), &root_api_tokens_out(r), &mut body);
+        }
+    }
+    body.push(json!({"ev":"End","case":case}));
+    evs.push(json!({"ev":"Reset","case":case,"kind":"root","ver":ver,"to":0,"brk":brk,"shape":shape_attrs(c)}));
+    evs.extend(body);
+    evs
+}
+
+fn run_group(case: &str, c: &Value, lay: &Layout, seed: u64) -> Vec<Value> {
+    let mut g = Gen { rng: Rng::derive(seed, case), ctr: 0, xf: gi(c, "xf") == 1 };
+    let ver = gi(c, "ver");
+    let v = version_of(ver);
+    let grp = build_group(c, &mut g);
+    let tin = group_tokens(&grp);
+    let (wres, bytes) = write_group(&grp, v);
+    let mut body = Vec::new();
+    body.push(json!({"ev":"Write","case":case,"kind":"group","res":wres,"len":bytes.len(),"tok":tok(&bytes)}));
+    let mut brk = String::new();
+    if wres == "ok" {
+        brk = layout_events(case, &bytes, lay, &BTreeMap::new(), &Wants::default(), &mut body);
+        let gi_ = grp.header.group_index;
+        let (pres, parsed) = outcome(guarded(|| WmoGroupParser::new().parse_group(&mut Cursor::new(&bytes), gi_)));
+        body.push(json!({"ev":"Parse","case":case,"api":"legacy","res":pres}));
+        if let Some(p) = &parsed {
+            sec_events(case, "parse", &tin, &group_tokens(p), &mut body);
+            let (rres, b2) = write_group(p, v);
+            body.push(json!({"ev":"Rewrite","case":case,"res":rres,"len":b2.len(),"tok":tok(&b2)}));
+        }
+        let (ares, aparsed) = outcome(guarded(|| parse_wmo(&mut Cursor::new(&bytes))));
+        let ares = match (&ares[..], &aparsed) {
+            ("ok", Some(ParsedWmo::Root(_))) => "err:DetectedAsRoot".to_string(),
+            _ => ares,
+        };
+        body.push(json!({"ev":"Parse","case":case,"api":"binrw","res":ares}));
+        if let Some(ParsedWmo::Group(pg)) = &aparsed {
+            sec_events(case, "api", &group_api_tokens_in(&grp), &group_api_tokens_out(pg), &mut body);
+        }
+    }
+    body.push(json!({"ev":"End","case":case}));
+    let mut evs = vec![json!({"ev":"Reset","case":case,"kind":"group","ver":ver,"to":0,"brk":brk,"shape":shape_attrs(c)})];
+    evs.extend(body);
+    evs
+}
+
+fn run_conv(case: &str, c: &Value, seed: u64) -> Vec<Value> {
+    let mut g = Gen { rng: Rng::derive(seed, case), ctr: 0, xf: gi(c, "xf") == 1 };
+    let (from, to) = (gi(c, "ver"), gi(c, "to"));
+    let kind = gs(c, "kind");
+    let mut evs = vec![json!({"ev":"Reset","case":case,"kind":kind,"ver":from,"to":to,"brk":"","shape":shape_attrs(c)})];
+    if kind == "rootconv" {
+        let mut root = build_root(c, &mut g);
+        let tin = root_tokens(&root);
+        let (res, _) = outcome(guarded(|| WmoConverter::new().convert_root(&mut root, version_of(to))));
+        let vres = if root.version == version_of(to) { "ok" } else { "stale" };
+        evs.push(json!({"ev":"Convert","case":case,"from":from,"to":to,"res":res,"version_field":vres}));
+        if res == "ok" {
+            sec_events(case, "convert", &tin, &root_tokens(&root), &mut evs);
+        }
+    } else {
+        let mut grp = build_group(c, &mut g);
+        let tin = group_tokens(&grp);
+        let (res, _) = outcome(guarded(|| WmoConverter::new().convert_group(&mut grp, version_of(to), version_of(from))));
+        evs.push(json!({"ev":"Convert","case":case,"from":from,"to":to,"res":res,"version_field":"ok"}));
+        if res == "ok" {
+            sec_events(case, "convert", &tin, &group_tokens(&grp), &mut evs);
+        }
+    }
+    evs.push(json!({"ev":"End","case":case}));
+    evs
+}
+
+fn main() {
+    let a = args();
+    install_quiet_panic_hook();
+    let cases = read_cases(&a.cases);
+    let trace = Trace::create(&a.trace);
+    let seed = seed();
+    if cases.is_empty() || gs(&cases[0], "kind") != "layout" {
+        tool_error("first case must be the layout record of the specification");
+    }
+    let lay = layout_from(&cases[0]);
+    for (ci, c) in cases.iter().enumerate().skip(1) {
+        let kind = gs(c, "kind");
+        let case = format!("{}:{}", c.get("id").and_then(|x| x.as_i64()).unwrap_or(ci as i64), kind);
+        let evs = match kind {
+            "root" => run_root(&case, c, &lay, seed),
+            "group" => run_group(&case, c, &lay, seed),
+            "rootconv" | "groupconv" => run_conv(&case, c, seed),
+            _ => tool_error(&format!("unknown case kind {kind}")),
+        };
+        trace.block(evs);
+    }
+    trace.flush();
+}
